@@ -238,3 +238,16 @@ Example dynamic_range_nonvacuous :
   map (fun p => o_out (snd p)) (model_hist E0 c [] ops) = [Ok; Ok; Raise ETraitError; Ok; Ok; Raise ETraitError; Ok] /\
   get (o_after (snd (nth 4 (model_hist E0 c [] ops) (((Attr, []) : op), mkObs Ok true [])))) 0 = Some (PInt 2).
 Proof. vm_compute. repeat split. Qed.
+
+(* Dict(<key trait>, <value trait>) members: keys and values are validated one by one (key first), converted keys that are
+   equal collapse; the stored dict satisfies dom, the conversion clause and the own-protocol clause by the same inductions *)
+Example dict_members_nonvacuous :
+  let d := DCompound [DInt; DDict (DCast CTInt) (DList DFloat 0 2)] in
+  sound_hyp E0 d = true /\
+  validate E0 d (PDict [(PStr [49], PList [PInt 5]); (PInt 1, PList [PBool true; PFloat (FFin false 500)]); (PBool false, PList [])])
+  = Accept (PDict [(PInt 1, PList [PFloat (FFin false 1000); PFloat (FFin false 500)]); (PInt 0, PList [])]) /\
+  validate E0 d (PDict [(PInt 1, PList [PInt 1; PInt 2; PInt 5])]) = Reject /\
+  validate E0 d (PDict [(PInt 1, PList [PIndexObj (Raises EValueError)])]) = Propagate EValueError /\
+  dom E0 d (PDict [(PInt 1, PList [PFloat (FFin false 1000)])]) = true /\
+  dom E0 d (PDict [(PStr [49], PList [])]) = false.
+Proof. vm_compute. repeat split. Qed.
